@@ -102,6 +102,14 @@ def ev(e: ast.AST, env: dict):
             if isinstance(recv, str) and all(isinstance(v, (str, int)) for v in vals):
                 r = getattr(recv, e.func.attr)(*vals)
                 return list(r) if isinstance(r, tuple) else r
+        if d in ("set", "list", "tuple", "frozenset", "sorted", "bool", "any", "all", "sum", "min", "max") and len(e.args) == 1 and not e.keywords:
+            v = ev(e.args[0], env)
+            if d == "bool" or isinstance(v, (list, tuple, set, frozenset, dict, str)):
+                try:
+                    r = {"set": set, "list": list, "tuple": tuple, "frozenset": frozenset, "sorted": sorted, "bool": bool, "any": any, "all": all, "sum": sum, "min": min, "max": max}[d](v)
+                except (ValueError, TypeError) as x:
+                    raise CannotEval(f"{u(e)[:60]}: {type(x).__name__}")
+                return r
         if d == "isinstance" and len(e.args) == 2 and dotted(e.args[1]) in _TYPES:
             return isinstance(ev(e.args[0], env), _TYPES[dotted(e.args[1])])
         if isinstance(e.func, ast.Attribute) and e.func.attr == "get" and 1 <= len(e.args) <= 2:
